@@ -297,6 +297,21 @@ def variadic_cases(thorough):
             yield {"params": ps, "ret": ret}
 
 
+def low_rank_cases():
+    """annotations with single axes on BOTH sides of a multi-axis specifier, values with fewer axes than the single axes
+    need (the multi-axis name would have to stand for a negative number of axes), in particular when the axes that
+    would be matched twice agree with both sides; and values of exactly the minimal rank"""
+    specs = [("a *b c", 2), ("a *b c d", 3), ("a b *v c", 3), ("a ... c", 2), ("a *b 3", 2), ("2 *b c d", 3), ("a *#b a", 2), ("#a *b c", 2)]
+    for dims, need in specs:
+        for rank in range(0, need + 2):
+            for size in (3, 2):
+                shape = [size] * rank
+                p = {"name": "x0", "dims": dims, "shape": shape, "cat": "Shaped", "dtype": "float32"}
+                yield {"params": [p], "ret": None}
+                yield {"params": [{"name": "x0", "dims": "a", "shape": [size], "cat": "Shaped", "dtype": "float32"}, dict(p, name="x1")], "ret": None}
+                yield {"params": [{"name": "x0", "dims": "a", "shape": [size], "cat": "Shaped", "dtype": "float32"}], "ret": dict(p)}
+
+
 def overlapping_calls(out):
     """two threads inside checked calls at overlapping times, same axis name, different sizes: each call has its own
     consistent assignment, so each must be accepted — and the inconsistent one rejected — whatever the other thread does.
@@ -360,6 +375,10 @@ def run(tier, seed, out, drv, facts):
     for case in vc:
         run_case(out, drv, facts, case, rng, 1 if not thorough else 2, all_perms=True)
     out.count("variadic_signatures", len(vc))
+    for case in low_rank_cases():
+        for p_ in case["params"] + ([case["ret"]] if case["ret"] else []):
+            p_.pop("name", None) if p_ is case["ret"] else None
+        run_case(out, drv, facts, case, rng, 1)
     for case in probe_cases(rng, 400 if thorough else 40):
         run_case(out, drv, facts, case, rng, 0)
     overlapping_calls(out)
